@@ -184,7 +184,11 @@ def nrt_scenario(ctx, j):
                     obsB.append((c.seconds, c.beats))
                     execd.append(main.elapsed_time())
                     if i == 1 and j.get('tempo_change') and j['inner'] == 'tempo':
-                        c.tempo = T * 2          # beats and seconds stay continuous; later deltas run at the new tempo
+                        # beats and seconds stay continuous; later deltas run at the new tempo
+                        if j['tempo_change'] == 2:
+                            c.etempo(T * 2)      # in NRT the elapsed time is the logical time: same closed form
+                        else:
+                            c.tempo = T * 2
                     yield dB[i]
                 obsB.append((c.seconds, c.beats))
                 execd.append(main.elapsed_time())
@@ -289,7 +293,10 @@ def _replay_nrt(j, g):
             obsB.append((c.seconds, c.beats))
             execd.append(main.elapsed_time())
             if i == 1 and j.get('tempo_change') and j['inner'] == 'tempo':
-                c.tempo = T * 2
+                if j['tempo_change'] == 2:
+                    c.etempo(T * 2)
+                else:
+                    c.tempo = T * 2
             yield dB[i]
         obsB.append((c.seconds, c.beats))
         execd.append(main.elapsed_time())
@@ -430,7 +437,8 @@ def main(tier, seed):
     nrt = [dict(mode='nrt', inner=i, tempo=T, offset=o, start=st) for i in ('tempo', 'app', 'sys')
            for T in ([2.0] if tier == 'quick' else [2.0, 0.5]) for o in ((0, 1) if i == 'tempo' else (0,))
            for st in ('play', 'sched')]
-    nrt += [dict(mode='nrt', inner='tempo', tempo=2.0, offset=o, start='play', tempo_change=1) for o in (0, 1)]
+    nrt += [dict(mode='nrt', inner='tempo', tempo=2.0, offset=o, start='play', tempo_change=tc) for o in (0, 1)
+            for tc in (1, 2)]
     rt += [dict(r, start='sched') for r in rt if r['child'] != 'none' and not r['other']]
     for r in run_jobs('vf.props.c05', 'job', rt, 'rt'):
         chk.add('rt', r)
